@@ -30,4 +30,55 @@ PROPS['C18'] = {
     'assumptions': ['strings are sequences of code points without lone surrogates', 'the model agrees with the code outside the generated inputs (control flow is modelled by hand, tied by differential testing)'],
 }
 
+CORR = 'the model agrees with the code outside the generated inputs (control flow is modelled by hand and tied by differential testing on every run)'
+
+PROPS['C09'] = {
+    'lean_targets': ['EmmetProps.C09', 'EmmetProps.C16'],
+    'lean_imports': ['EmmetProps.C09', 'EmmetProps.C16'],
+    'theorems': [
+        thm('EmmetProps.C09_match', 'layer B, every element tree with arbitrary offsets, every position: match over the event stream = first element in post-order whose range strictly contains the position (the innermost one), with its recorded open/close ranges'),
+        thm('EmmetProps.C09_outward', 'layer B: balanced_outward = all strictly containing elements, innermost to outermost'),
+        thm('EmmetProps.C09_inward', 'layer B: balanced_inward = first element in post-order containing the position followed by its chain of first children'),
+        thm('EmmetProps.C16_html_scan', 'layer A, every string: every tag reported by scan is an in-range slice starting with < and ending with >, tags increasing and non-overlapping'),
+    ],
+    'domains': ['dom_html'],
+    'rule': 'documents rendered from random element trees (paired, void, self-closed; quoted / unquoted / expression attributes containing >; comments, CDATA, PIs, script/style with markup-like bodies; XML mode) with the generator recording where every tag and attribute lies; every position of every document; non-trivial = document with at least one tag event; distinct = distinct source text',
+    'explanation': 'Layer B theorems cover the three stack machines for every element tree; the lexical layer (rendered text -> event stream) and attribute ranges are tied by correspondence and by the ground-truth oracle on generated documents; C16_html_scan gives well-formedness of the event stream for all strings.',
+    'level_text': 'Lean 4 theorems: match / balanced_outward / balanced_inward over the event stream of ANY element tree equal the declarative innermost / enclosing / first-child-chain specifications (all trees, all positions); scan events well-formed for ALL strings. The lexical layer for generated documents (that scan(render d) = events d, attribute ranges) is checked by correspondence + ground truth, not proved.',
+    'level_note': 'Trusted: Lean kernel + standard axioms; hand-written models of scan.py and __init__.py (0 differences with the code on every generated input incl. all strings of length <= 3/4 over the markup alphabet x every position x html/xml); attributes() is not modelled, only checked against ground truth.',
+    'assumptions': [CORR, 'the lexical correctness of scan on rendered documents is sampled (generator ground truth), not proved'],
+}
+
+PROPS['C10'] = {
+    'lean_targets': ['EmmetProps.C10'],
+    'lean_imports': ['EmmetProps.C10'],
+    'theorems': [
+        thm('EmmetProps.C10_match', 'layer B, every stylesheet tree with arbitrary offsets, every position: match = first item in post-order whose span strictly contains the position; rule = [selector, }+1) with the body between the braces, declaration = [name, delimiter+1) with the value as body'),
+        thm('EmmetProps.C10_outward', 'layer B, every stylesheet laid out in document order, every position in the file: balanced_outward = value, declaration and every enclosing rule (content then full range), innermost first — including positions after the first top-level rule'),
+    ],
+    'domains': ['dom_css'],
+    'rule': 'stylesheets rendered from random trees of nested rules and ;-terminated declarations (pseudo-selectors, at-rules with parenthesised conditions, attribute selectors and values with braces/semicolons in strings and parentheses, comments, SCSS variables, custom properties, several top-level rules) with recorded ground truth; every position; non-trivial = sheet with a selector or value event; distinct = distinct source',
+    'explanation': 'Layer B theorems are about the stack machines over event streams; scan (layer A) and balanced_inward are tied by correspondence and the ground-truth oracle.',
+    'level_text': 'Lean 4 theorems: CSS match and balanced_outward over the event stream of ANY stylesheet tree equal the declarative specifications, for every position in the file (all trees, all offsets). The scanner (text -> events) and balanced_inward are covered by correspondence + generator ground truth, not proved.',
+    'level_note': 'Trusted: Lean kernel + standard axioms; hand-written models of css_matcher/scan.py, __init__.py, parse.py (0 differences on every generated input incl. all strings of length <= 3/4 over the stylesheet alphabet x every position).',
+    'assumptions': [CORR, 'C10_outward assumes the tree is laid out in document order (Sheet.Seq), which rendered sheets satisfy'],
+}
+
+PROPS['C16'] = {
+    'lean_targets': ['EmmetProps.C16', 'EmmetProps.C09', 'EmmetProps.C10'],
+    'lean_imports': ['EmmetProps.C16', 'EmmetProps.C09', 'EmmetProps.C10'],
+    'theorems': [
+        thm('EmmetProps.C16_html_scan', 'every string, any special-tag table: the HTML scanner model is total and every reported tag is an in-range slice starting with < and ending with >, in increasing non-overlapping order'),
+        thm('EmmetProps.C09_match', 'match = innermost enclosing element (used with C09_outward for: match() equals the first entry of balanced_outward())'),
+        thm('EmmetProps.C09_outward', 'balanced_outward = all strictly containing elements innermost first (successive entries contain each other and the position)'),
+        thm('EmmetProps.C09_inward', 'balanced_inward = element at the position + first-child chain (successive entries lie inside each other)'),
+    ],
+    'domains': ['dom_html', 'dom_css'],
+    'rule': 'all strings up to length 3 (quick) / 4 (thorough) over the markup alphabet `< > / = " \' a b - ! [ ] ? space` and the stylesheet alphabet `{ } : ; ( ) " \' \\ / * a - space newline`, random fragment mixes, mutated generated documents; all positions -1..len+1; html and xml mode; non-trivial = source producing at least one scanner event; distinct = distinct source',
+    'explanation': 'HTML scan well-formedness is proved for all strings; the CSS range clauses, attribute parser and value splitter are decided by correspondence with the model plus the range oracle on the implementation (CSS range theorems are future work).',
+    'level_text': 'Lean 4 theorem for the HTML scanner over ALL strings (total, in-range, <...> shaped, ordered events) and layer-B nesting theorems for the HTML balance functions; the CSS clauses (0 <= start <= end <= len for scan, match, balance functions, split_value) are at correspondence level: model = code on every explored input and the range oracle holds on the implementation.',
+    'level_note': 'Trusted: Lean kernel + standard axioms; hand-written scanner / matcher models. CSS range well-formedness is not yet a theorem (partial): it is checked exhaustively for short strings on the implementation.',
+    'assumptions': [CORR],
+}
+
 NOT_APPLICABLE = {}
